@@ -14,10 +14,16 @@ def run(ctx, model_ok):
         ctx.cov["distinct_nontrivial"] = st["distinct_states"]
         ctx.cov["rule"] = ("seeded random histories on random collection trees (≤6 nodes, nesting ≤ depth of a random recursive tree), "
                            "70% in the equal-path-length regime operated at the root (incl. the rotate_from_* entry points with raw arguments, add of a fresh object / nested "
-                           "collection followed by a position assignment that restores the common length, remove), rest unrestricted; distinct = distinct full tree states")
+                           "collection followed by a position assignment that restores the common length, remove; 20% of the operations addressed to a DESCENDANT with length-preserving scalar input — "
+                           "the regime of history_refines_spec_any_address), rest unrestricted (any address, any input); own-sensor rows: trees of CustomSource leaves (integer affine field "
+                           "functions), one sensor and idle objects, getB(collection, sensor) compared exactly with the model reading after every operation and with the reading before the "
+                           "operation through the index map; distinct = distinct full tree states")
         ctx.cov["traces_validated_against_impl"] = st["histories"]
         ctx.cov["samples"] = st.pop("samples")
         ctx.cov["correspondence"] = st
+        # own-sensor row: exact tie of `Node.ownTensor` (the reading the theorems are about) to getB(collection, own sensor) after every
+        # operation, and the before/after index-map relation of `own_sensor_reading_invariant_history` on the real values
+        ctx.cov["own_sensor_stream"] = path_family.run_own_sensor_stream(ctx, ctx.scale(40, 900), ctx.scale(8, 10))
     else:
         ctx.cov["correspondence"] = "driver did not build"
     budget = 10 if len(ctx.broken) else 1
@@ -29,12 +35,20 @@ def run(ctx, model_ok):
     ctx.cov.setdefault("distinct_nontrivial", ost["oracle_ops"])
     ctx.cov.setdefault("samples", [{"oracle": ost}])
     ctx.cov["not_shown"] = [
-        "histories (history_refines_spec): operations addressed to the collection itself, plus add / remove of its children; an operation addressed to a "
-        "descendant changes that descendant's relative pose by design (child_operation_is_local) — a history is cut there and the theorem applies again from the "
-        "next state whose members share one path length; the composed index map of a history is the fold of the per-step maps (specStep), not a closed formula",
-        "own_sensor_field_invariant is stated for rotate (every rotate_from_* form, anchor, start) on the group carrier; for move / setters / whole histories the same "
-        "conclusion follows from reading_eq_of_relAt_eq with the relative-pose equalities of history_refines_spec, not instantiated as separate theorems; "
-        "float rounding: oracle (coll.getB with an internal sensor, 1e-9)",
+        "histories with operations at ANY address ARE covered (history_refines_spec_any_address: abstract state with the tree shape kept, induction over the operation "
+        "list and over the address; history_index_map: closed index map `histIdx`; own_sensor_reading_invariant_history) under `AdmissibleAt`: an operation addressed "
+        "to a DESCENDANT must keep the path length (scalar input with start inside the path, vector input merged inside the path, a setter with an input of the current "
+        "length) — a descendant whose path gets longer or shorter than the collection's leaves the property's domain (members share the collection's path length) until "
+        "a `position=` / `orientation=` / `reset_path` on the collection restores the common length; that re-entry is sampled by the stream but not stated as a theorem",
+        "history_index_map / own_sensor_reading_invariant_history speak about members the history does not touch (`histTrack`: not removed, not addressed themselves or "
+        "through an ancestor below the collection); for a touched member the new relative path is given by the abstract step (descendant_step_spelled_out: "
+        "`relPath frame (objStep (compose frame rel) op)`), not by an index map — by design (operating on a child alone changes that child)",
+        "on the driver's carrier (M3 Int, inverse = transpose): history_index_map_on_driver_carrier covers histories of base operations at any address with octahedral "
+        "inputs (rotate_from_* steps are such steps by C09(j); add / remove copy subtrees); own_sensor_reading_invariant_history is proved over a group only — on the carrier it "
+        "follows from history_index_map_on_driver_carrier with tensor_eq_spec_on_driver_carrier, not instantiated; the driver's reading (`Node.ownTensor` = Model/Level2 `tensor` on "
+        "the objects at the addresses) is tied to getB(collection, own sensor) exactly by the `path` own-sensor rows, and its equality with `reading` is `tensor_eq_spec` (C06), "
+        "not restated for ownTensor",
+        "float rounding: oracle (coll.getB with an internal sensor, 1e-9); the own-sensor stream rows are exact (integer positions, octahedral rotations, integer affine field functions)",
     ]
     ctx.assumptions += ["scipy Rotation is a group acting linearly on R^3", "np.pad(edge)/slicing behave as edgePad/mapSlice"]
 
